@@ -8,7 +8,6 @@ package c10
 import (
 	"errors"
 	"fmt"
-	"os"
 	"strings"
 	"sync"
 	"testing"
@@ -617,5 +616,5 @@ func TestCheck(t *testing.T) {
 		}
 	})
 	r.Count("fault_runs", nfault)
-	os.Exit(r.Finish(50))
+	h.Exit(r.Finish(50))
 }
